@@ -191,6 +191,26 @@ PROP = {
             "Frp.C19.reconnect_code",
             "Frp.C19.reconnect_early_witness",
             "Frp.C19.model_sessionRegOK",
+            # round 3: the stored configuration is immutable (Props/C19.lean, Part R), the two visitor-manager findings
+            # and their repaired functions (Props/C19Visitors.lean)
+            "Frp.C19.step_cfg",
+            "Frp.C19.run_cfg",
+            "Frp.C19.deliver_stored",
+            "Frp.C19.stored_immutable",
+            "Frp.C19.running_cfgs_history",
+            "Frp.C19.reload_silent_after_history",
+            "Frp.C19.model_statusHolds",
+            "Frp.C19.vm_run_cfgs",
+            "Frp.C19.vm_dup_fixed_witness",
+            "Frp.C19.vm_reload_idempotent_fixed",
+            "Frp.C19.vm_fixed_runs_last",
+            "Frp.C19.vm_fixed_reload_keeps_all",
+            "Frp.C19.vm_close_pass_witness",
+            "Frp.C19.vm_close_pass_fixed_witness",
+            "Frp.C19.vm_closed_quiet_fixed",
+            "Frp.C19.vm_closed_quiet_partial",
+            "Frp.C19.model_vKept_fixed",
+            "Frp.C19.model_vClosedQuiet_fixed",
         ],
         "engines": [
             {"name": "health", "quick_n": 2200, "thorough_n": 9000, "thorough_seeds": 4,
@@ -198,33 +218,43 @@ PROP = {
              "result_class": lambda r: ("withdrawn" if "F" in r else "up" if "N" in r else "never-up") if set(r) <= set("NF.") else r[:12]},
             {"name": "client", "quick_n": 3000, "thorough_n": 9000, "thorough_seeds": 4,
              "nontrivial": client_nontrivial, "result_class": client_class, "search_seeds": 2, "search_n": 1500},
-            {"name": "vmgr", "quick_n": 2500, "thorough_n": 6000, "thorough_seeds": 4,
+            # reruns 1: the two known findings show on every run, each re-execution costs the whole engine run
+            {"name": "vmgr", "quick_n": 2500, "thorough_n": 6000, "thorough_seeds": 4, "reruns": 1,
              "nontrivial": vmgr_nontrivial, "result_class": vmgr_class, "search_seeds": 2, "search_n": 1500},
             {"name": "svc", "quick_n": 280, "thorough_n": 900, "thorough_seeds": 3,
              "nontrivial": svc_nontrivial, "result_class": svc_class, "search_seeds": 2, "search_n": 280},
         ],
         "rule": "health engine: probe-outcome histories against the real health.Monitor (n = number of probes); non-trivial = "
                 "a history on which the failed callback fired. client engine: reload / tick / reply / health / work-connection "
-                "histories against the real proxy.Manager and its Wrappers; configurations are Complete()d and are either one of 17 "
+                "histories against the real proxy.Manager and its Wrappers; EVERY reload is what apiReload does: the entries are written as "
+                "a configuration file (JSON and TOML alternately) that spells out only the values the entry sets - localIP, "
+                "bandwidthLimitMode, a plugin's enableHTTP2 and, for most health-checked entries, some subset of the health check's "
+                "intervalSeconds / timeoutSeconds / maxFailed are left out - and read back through config.LoadClientConfig + "
+                "validation.ValidateAllClientConfig, so the manager gets freshly allocated, loader-completed objects each time (a "
+                "second load of the same file is kept as the pristine image: `status` reports a wrapper whose stored object no longer "
+                "equals it); configurations are one of 19 "
                 "hand-picked ones or a field vector (one digit per field of v1.ProxyBaseConfig - useEncryption, useCompression, "
                 "bandwidthLimit, bandwidthLimitMode, proxyProtocolVersion, metadatas, annotations, load balancer group / key, "
-                "health check, localIP, localPort, plugin - and of the type's own struct, for tcp / http / https / stcp / tcpmux); one "
+                "health check (with which defaults are left out), localIP, localPort, plugin - and of the type's own struct, for tcp / http / https / stcp / tcpmux); one "
                 "class of reloads brings a proxy to status running and then changes exactly ONE digit of it (or none); every "
                 "NewProxy the transporter sees is compared with the message marshalled from the configured entry (X<name> otherwise); "
                 "non-trivial = the op produced a message, a status "
                 "change, a hand-over or hit a stopped wrapper; for `race` (two overlapping operations, the first one held in the "
                 "transporter at the hand-over of its NewProxy/CloseProxy) non-trivial = a message was actually held. "
-                "vmgr engine: reload / squat / free / tick / Close / TransferConn histories against the real visitor.Manager with "
+                "`live`: real time, real monitor, the same text loaded again while wrapper, monitor and proxy run. "
+                "vmgr engine: reload / squat / free / tick / Close / Close-overtaking-a-loop-iteration / TransferConn histories against the real visitor.Manager with "
                 "real stcp / xtcp / sudp visitors binding 5 loopback addresses (tcp and udp, two IPs) which the harness takes and "
                 "releases; visitor configurations are field vectors over every field of VisitorBaseConfig and XTCPVisitorConfig, "
                 "reloads add / remove / reorder / duplicate / change exactly one field, often of an entry whose Run() failed at "
-                "load; every op ends after a complete pass of the real keep-alive loop; non-trivial = something is configured. "
+                "load, and go through the real loader from text that leaves bindAddr and xtcp's protocol / maxRetriesAnHour / "
+                "minRetryInterval / fallbackTimeoutMs out (entries with a harness plugin are built in place, fresh objects as well); "
+                "every op ends after a complete pass of the real keep-alive loop; non-trivial = something is configured. "
                 "svc engine: whole service lives (start from a configuration file, reloads through PUT /api/config + GET "
                 "/api/reload - also of a file that does not parse -, GET /api/status after every op, GET /api/config, POST "
                 "/api/stop) against an in-process scripted "
                 "server that drops the session and accepts, refuses or holds the next dial, with reloads while connected, while "
                 "a dial hangs and between two attempts; proxies are field vectors (reloads add / remove / reorder / duplicate / "
-                "change exactly one field), up to three stcp visitors bind real loopback ports which are probed after every op; "
+                "change exactly one field; the file spells out only what the vector sets), up to three stcp visitors bind real loopback ports which are probed after every op; "
                 "non-trivial = a message reached the server or wrappers wait on a dead "
                 "session; distinct = distinct (op line, result) pairs",
         "trusted": COMMON_TRUST + [
@@ -239,6 +269,12 @@ PROP = {
             "NewManager; vm.mu and vm.visitors are read the same way (object identity of visitors); a pass of the keep-alive "
             "loop is observed through a permanently failing sentinel visitor (its plugin creator counts) that the harness adds "
             "to every list, so the loop is always running",
+            "configuration text: harness/eng_c19_load.go renders an entry by marshalling the un-Complete()d structure and pruning "
+            "zero / empty members, the loader is frp's own (config.LoadClientConfig, validation.ValidateAllClientConfig); `stored object "
+            "intact` = reflect.DeepEqual with a second load of the same file",
+            "vmgr closerace: the harness takes vm.mu (reflect/unsafe, as above), lets Manager.Close() and then the loop's next "
+            "iteration queue up for it (runtime.Stack: both blocked in Lock) and releases it; should the runtime serve them in the "
+            "other order the answer is compared with `free; pass; Close` instead",
             "svc: Service.ctl is read through reflect/unsafe (under ctlMu) to see that loginFunc has installed the new control; "
             "quiescence = every wrapper has left status new (and wait start on a live session), every Dispatcher.sendLoop is "
             "parked (runtime.Stack), the scripted server has recorded every byte the client wrote and the client has taken "
@@ -258,14 +294,22 @@ PROP = {
             "NewProxy/CloseProxy of an operation just before it is on the wire while a second operation runs until it has "
             "finished or its goroutine is blocked (runtime.Stack); other preemption points (between Lock() and the phase test, "
             "between two statements that do not call the handler) are not driven, InWorkConn/GetStatus are not in the small-step model",
-            "visitor.Manager.UpdateAll still starts the FIRST and compares with the LAST entry of a duplicated visitor name "
-            "(proxy_manager.go was repaired by eab68f8, visitor_manager.go was not): the model is faithful, "
-            "vm_dup_restart_witness shows the restart on every identical reload, vm_reload_idempotent is stated for lists "
-            "without duplicated names; the engine compares such reloads with the model and evaluates only the clauses about "
-            "names and membership on them",
+            "two KNOWN findings of the unchanged tree, both in client/visitor/visitor_manager.go, both reproduced by the vmgr "
+            "engine as prop=FAILS and suppressed by their signatures in KNOWN_FINDINGS.json (C19-visitor-dup-name-restarts: "
+            "UpdateAll stores the FIRST and compares with the LAST entry of a duplicated name, every later reload restarts the "
+            "visitor; C19-visitor-started-after-close: a loop iteration that runs after Close() starts a visitor nobody closes). "
+            "The model is faithful to the code as it is (switches VisitorMgr.activeUpdateAll / activeTryStart); the full statements "
+            "are proved for the repaired functions (vm_reload_idempotent_fixed, vm_fixed_reload_keeps_all, vm_closed_quiet_fixed), "
+            "for the code as it is vm_reload_idempotent (lists without duplicated names) and vm_closed_quiet_partial (no iteration "
+            "after Close); proposed repairs hooks/C19-fix-visitor-dup-names.patch, hooks/C19-fix-visitor-pass-after-close.patch. "
+            "A failure of another clause on a list with a duplicated name would be suppressed by the first signature as well",
+            "the clause `unchanged entries keep their visitor object` is evaluated per name only where ALL entries of the name are "
+            "the same, in the same order, in the old and the new list (which of several entries of a name is the configured one "
+            "is not fixed by the property)",
             "vmgr: which of several waiting visitors gets an address that became free is Go's map order; the engine starts "
             "the ones the implementation reports first (the model refuses those that cannot start) and then completes the pass; "
-            "a pass that runs after Close (stopCh and the ticker both ready) is allowed the same way; the states between two "
+            "a pass that runs after Close (stopCh and the ticker both ready) is followed by the model the same way and then "
+            "judged by the clause `a closed manager holds no address` (known finding above); the states between two "
             "passes of the loop are covered by the theorems (every tryStart / squat / free interleaving), the engine observes "
             "pass-stable states only",
             "svc: visitors at service level are observed only through their bind ports, with distinct names and ports, and "
@@ -309,7 +353,14 @@ META = {
                 "stored entry and every visitor's configuration is an entry of the loaded list (a removed visitor is never started "
                 "again, a changed one runs the new entry), unchanged visitors are the same object, changed ones are closed, and a "
                 "complete pass of the loop in any order leaves every entry running or unstartable (vm_history_configured, "
-                "vm_history_running, vm_pass_complete). Re-login: after any history of reloads (connected, during an outage, between "
+                "vm_history_running, vm_pass_complete). Stored configuration: no event of a wrapper's life other than a reload "
+                "changes the configuration object the next reload is compared with, hence the loaded list loaded again is silent "
+                "after ANY history, not only right after the load (stored_immutable, reload_silent_after_history; on the real code "
+                "every reload comes from text through the real loader, with defaulted members left out). Two open findings in "
+                "visitor_manager.go (KNOWN_FINDINGS, repairs proposed in hooks/): a visitor name configured twice with different "
+                "contents is restarted by every later reload (vm_dup_restart_witness; repaired reload: vm_reload_idempotent_fixed for "
+                "every list), and an iteration of the keep-alive loop that runs after Close() starts a visitor nobody closes "
+                "(vm_close_pass_witness; repaired iteration: vm_closed_quiet_fixed). Re-login: after any history of reloads (connected, during an outage, between "
                 "attempts), session losses and logins a live control runs exactly the LAST loaded configuration and the new session "
                 "receives one NewProxy per configured name (reconnect_runs_last_loaded, relogin_registers_last_loaded; tied to where "
                 "loginFunc reads the configuration by reconnect_code). Before fix eab68f8 a name configured twice with different contents was stopped and "
